@@ -171,6 +171,11 @@ func (x *Exec) mapKeyTerm(st *State, mt *types.Map, k Value) *Term {
 	kt := mt.Key()
 	switch {
 	case isString(kt):
+		if sq, isSeq := k.(SeqV); isSeq {
+			// a string-typed bound variable of a contract: the key it would denote; no facts about it can be
+			// stated outside its binder (an arbitrary key: that is what the quantifier means)
+			return c.App("str_id", SInt, sq.C[""], sq.Off, sq.Len)
+		}
 		s := k.(StrV)
 		id := c.App("str_id", SInt, x.strContent(s.Ref), s.Off, s.Len)
 		// injectivity against the keys seen so far
